@@ -35,7 +35,11 @@ Definition expr := string.
 
 (* ---- abstract concrete syntax -------------------------------------------------------------- *)
 Inductive modif := Modif (cm : option (list arg)) (val : option expr)   (* class_modification? ('=' expression)? *)
-with arg := Arg (name : string) (m : option modif).                      (* element_modification *)
+with arg :=
+| Arg (name : string) (m : option modif)                                  (* element_modification *)
+| ARedecl (prefixes type : list string) (name : string) (dims : option (list expr))
+          (m : option modif) (comment : string)                           (* redeclare component_clause1 *)
+| AShort (ctype name : string) (target : list string).                    (* redeclare short_class_definition *)
 
 Record declr := mkD { d_name : string; d_dims : option (list expr); d_mod : option modif; d_comment : string }.
 Record clause := mkC { c_prefixes : list string; c_type : list string; c_dims : option (list expr);
@@ -56,7 +60,11 @@ Inductive element :=
 
 (* ---- parsed tree --------------------------------------------------------------------------- *)
 Inductive omod := OCM (args : list oarg)                 (* ast.ClassModification *)
-with oarg := OArg (name : string) (mods : list omv)      (* ClassModificationArgument(ElementModification) *)
+with oarg :=
+| OArg (name : string) (mods : list omv)                 (* ClassModificationArgument(ElementModification) *)
+| ORedecl (prefixes type : list string) (name : string) (dims : list (list expr)) (cm : option omod)
+          (comment : string)                             (* …(ComponentClause with one Symbol), redeclare=True *)
+| OShortR (ctype name : string) (target : list string)   (* …(ShortClassDefinition), redeclare=True *)
 with omv := OVal (e : expr) | OCls (c : omod).
 
 Inductive vis := Private | Protected | Public.            (* ast.Visibility 0, 1, 2 *)
@@ -75,9 +83,12 @@ Inductive result (A : Type) := Ok (a : A) | Err (e : err).
 Arguments Ok {A} a.
 Arguments Err {A} e.
 
-Record variant := mkV { v_allsec : bool; v_dimsmerge : bool; v_implist : bool }.
-Definition head_variant := mkV true true true.
-Definition prefix_variant := mkV false false false.
+Record variant := mkV { v_allsec : bool; v_dimsmerge : bool; v_implist : bool;
+                        v_redecl : bool (* exitComponent_clause1 restores comp_clause / symbol_node: see walk_arg *) }.
+Definition head_variant := mkV true true true false.
+Definition prefix_variant := mkV false false false false.
+Definition value_arg (e : expr) : oarg := OArg "value" [OVal e].
+Definition default_dims : list (list expr) := [["None"]].   (* [[Primary(value=None)]] *)
 
 (* ---- modifications (exitModification_* 730-739, exitElement_modification 721-728,
         exitArgument 171-179, exitClass_modification 184-188) -------------------------------- *)
@@ -88,12 +99,26 @@ Fixpoint conv_modif (m : modif) : list omv :=
       ++ (match val with Some e => [OVal e] | None => [] end)
   end
 with conv_arg (a : arg) : oarg :=
-  match a with Arg n m => OArg n (match m with Some m' => conv_modif m' | None => [] end) end.
+  match a with
+  | Arg n m => OArg n (match m with Some m' => conv_modif m' | None => [] end)
+  | ARedecl p t n d m c =>
+      (* the redeclared Symbol: exitDeclaration 699-719 applied to its own modification *)
+      ORedecl p t n (match d with Some subs => [subs] | None => default_dims end)
+              (match m with
+               | None => None
+               | Some (Modif cm val) =>
+                   match cm, val with
+                   | None, None => None
+                   | Some a', None => Some (OCM (map conv_arg a'))
+                   | None, Some e => Some (OCM [value_arg e])
+                   | Some a', Some e => Some (OCM (map conv_arg a' ++ [value_arg e]))
+                   end
+               end) c
+  | AShort ct n t => OShortR ct n t
+  end.
 
 Definition conv_args (m : option (list arg)) : omod :=
   OCM (match m with Some a => map conv_arg a | None => [] end).
-
-Definition value_arg (e : expr) : oarg := OArg "value" [OVal e].
 
 (* exitDeclaration 703-719: `for mod in self.ast[ctx.modification()]` *)
 Definition decl_step (cur : option omod) (mv : omv) : option omod :=
@@ -129,8 +154,6 @@ Section MapM.
 End MapM.
 
 Definition mem (x : string) (l : list string) : bool := existsb (String.eqb x) l.
-Definition default_dims : list (list expr) := [["None"]].   (* [[Primary(value=None)]] *)
-
 (* one component_declaration inside a clause whose prefixes / type / default-dimensions objects are P T D0 *)
 Definition do_declr (cl : clause) (P T D0 : nat) (d : declr) (st : list string * lst)
   : result (osym * (list string * lst)) :=
@@ -251,9 +274,34 @@ Inductive ores := RSyms (ss : list osym) | RExt (e : oext) | ROther.    (* self.
    when symbol_node is None; nothing resets symbol_node until the next component declaration ends *)
 Definition bump (b : bool) (l : lst) : lst :=
   if b then (if l_symset l then l else mkL (S (l_count l)) true (l_next l) (l_trace l)) else l.
-Definition has_args (m : option (list arg)) : bool := match m with Some (_ :: _) => true | _ => false end.
+(* (sym_count, symbol_node is not None) along the arguments of a modification:
+   - an element modification creates a Symbol when symbol_node is None (666-673);
+   - a redeclared component (component_clause1 / component_declaration1 659-664, 679-681) takes an order number, is
+     the symbol_node while its own modification is walked, and leaves symbol_node = None — or, with the repair
+     v_redecl, the symbol_node of the enclosing declaration;
+   - a short class redeclaration (without modification) touches nothing.
+   Inside an extends clause the redeclared component is not entered into class_node.symbols (in_extends_clause).
+   NOT MODELLED: redeclarations inside the modification of a COMPONENT (do_declr ignores them); there /repo HEAD
+   enters the redeclared component into the enclosing class and loses the component's own modification. *)
+Fixpoint walk_modif (rs : bool) (m : modif) (s : nat * bool) : nat * bool :=
+  match m with
+  | Modif cm _ => match cm with Some args => fold_left (fun s' a => walk_arg rs a s') args s | None => s end
+  end
+with walk_arg (rs : bool) (a : arg) (s : nat * bool) : nat * bool :=
+  match a with
+  | Arg _ m => let s1 := if snd s then s else (S (fst s), true) in
+               match m with Some m' => walk_modif rs m' s1 | None => s1 end
+  | ARedecl _ _ _ _ m _ =>
+      let s2 := match m with Some m' => walk_modif rs m' (S (fst s), true) | None => (S (fst s), true) end in
+      (fst s2, if rs then snd s else false)
+  | AShort _ _ _ => s
+  end.
+Definition walk_args (rs : bool) (m : option (list arg)) (s : nat * bool) : nat * bool :=
+  match m with Some args => fold_left (fun s' a => walk_arg rs a s') args s | None => s end.
 (* the same happens for the arguments of an annotation that follows an extends or import clause *)
-Definition ext_count (m : option (list arg)) (ann : bool) (l : lst) : lst := bump (has_args m || ann) l.
+Definition ext_count (rs : bool) (m : option (list arg)) (ann : bool) (l : lst) : lst :=
+  let s := walk_args rs m (l_count l, l_symset l) in
+  bump ann (mkL (fst s) (snd s) (l_next l) (l_trace l)).
 
 Definition vis_of_label (lb : label) : vis := match lb with Unl => Private | Pub => Public | Pro => Protected end.
 Definition set_vis_res (v : vis) (r : ores) : ores :=
@@ -313,7 +361,7 @@ Fixpoint do_element (v : variant) (path : list string) (e : element) (st : cstat
       | Ok (ss, (seen', l')) => Ok ((RSyms ss, []), (mkK seen' (k_imports k) (k_classes k), l'))
       end
   | EExt p m ann =>                                                    (* 577-590 *)
-      Ok ((RExt (mkE p Private (conv_args m)), []), (k, ext_count m ann l))
+      Ok ((RExt (mkE p Private (conv_args m)), []), (k, ext_count (v_redecl v) m ann l))
   | EImp i ann =>
       match add_import v i (k_imports k) with
       | Err x => Err x
@@ -350,7 +398,13 @@ Definition run_file (v : variant) (cs : list element) : result (list oclass) :=
 Fixpoint show_omod (c : omod) : string :=
   match c with OCM args => ("(" ++ join "," (map show_oarg args) ++ ")")%string end
 with show_oarg (a : oarg) : string :=
-  match a with OArg n mods => (n ++ "[" ++ join ";" (map show_omv mods) ++ "]")%string end
+  match a with
+  | OArg n mods => (n ++ "[" ++ join ";" (map show_omv mods) ++ "]")%string
+  | ORedecl p t n d cm c =>
+      ("redeclare{" ++ join " " p ++ "|" ++ join "." t ++ "|" ++ n ++ "|" ++ join ";" (map (join ",") d) ++ "|"
+       ++ (match cm with None => "None" | Some c' => show_omod c' end) ++ "|" ++ c ++ "}")%string
+  | OShortR ct n t => ("redeclare-short{" ++ ct ++ "|" ++ n ++ "|" ++ join "." t ++ "}")%string
+  end
 with show_omv (m : omv) : string :=
   match m with OVal e => ("=" ++ e)%string | OCls c => show_omod c end.
 
